@@ -38,6 +38,43 @@ func leanPairs(ps [][2]string) string {
 	return "[" + strings.Join(parts, ", ") + "]"
 }
 
+// doneIsLast: the spawned closure calls `<wg>.Done()` exactly once, as its last top-level statement with no `return`
+// anywhere before it, or defers it as its first statement.
+func doneIsLast(fset *token.FileSet, g *ast.GoStmt) bool {
+	fl, ok := g.Call.Fun.(*ast.FuncLit)
+	if !ok || len(fl.Body.List) == 0 {
+		return false
+	}
+	isDone := func(c *ast.CallExpr) bool {
+		se, ok := c.Fun.(*ast.SelectorExpr)
+		return ok && se.Sel.Name == "Done" && len(c.Args) == 0
+	}
+	dones, returns := 0, 0
+	ast.Inspect(fl.Body, func(y ast.Node) bool {
+		switch n := y.(type) {
+		case *ast.CallExpr:
+			if isDone(n) {
+				dones++
+			}
+		case *ast.ReturnStmt:
+			returns++
+		}
+		return true
+	})
+	if dones != 1 {
+		return false
+	}
+	if d, ok := fl.Body.List[0].(*ast.DeferStmt); ok && isDone(d.Call) {
+		return true
+	}
+	last, ok := fl.Body.List[len(fl.Body.List)-1].(*ast.ExprStmt)
+	if !ok || returns != 0 {
+		return false
+	}
+	c, ok := last.X.(*ast.CallExpr)
+	return ok && isDone(c)
+}
+
 func extractFedFacts(repo string) (string, error) {
 	if Arg == "" {
 		return "", fmt.Errorf("FedFacts needs -arg <generated package dir>")
@@ -52,7 +89,7 @@ func extractFedFacts(repo string) (string, error) {
 	if err != nil {
 		return "", err
 	}
-	var listWrites, multiSel, singleSel, wgAdds [][2]string
+	var listWrites, multiSel, singleSel, wgAdds, doneLast [][2]string
 	type goFact struct {
 		where string
 		calls []string
@@ -114,6 +151,7 @@ func extractFedFacts(repo string) (string, error) {
 					g.calls = append(g.calls, src(fset, n.Call.Fun))
 				}
 				gos = append(gos, g)
+				doneLast = append(doneLast, [2]string{name, fmt.Sprint(doneIsLast(fset, n))})
 			case *ast.CallExpr:
 				if id, ok := n.Fun.(*ast.Ident); ok && strings.HasPrefix(id.Name, "entityResolverNameFor") && len(n.Args) == 2 {
 					p := [2]string{strings.TrimPrefix(id.Name, "entityResolverNameFor"), src(fset, n.Args[1])}
@@ -163,6 +201,12 @@ func extractFedFacts(repo string) (string, error) {
 	sb.WriteString("def singleSelectArg : List (String × String) := " + leanPairs(singleSel) + "\n\n")
 	sb.WriteString("/-- WaitGroup.Add calls: (function, argument) -/\n")
 	sb.WriteString("def wgAdds : List (String × String) := " + leanPairs(wgAdds) + "\n\n")
+	sb.WriteString("/-- every `go` statement: (enclosing function, the closure signals its WaitGroup (`Done`) only after everything else it\ndoes - `Done()` is its one last statement with no `return` before it, or is deferred first) -/\n")
+	var dl []string
+	for _, p := range doneLast {
+		dl = append(dl, "("+leanStr(p[0])+", "+p[1]+")")
+	}
+	sb.WriteString("def doneLast : List (String × Bool) := [" + strings.Join(dl, ", ") + "]\n\n")
 	fmt.Fprintf(&sb, "/-- calls of a batch entity resolver in resolveManyEntities -/\ndef multiCalls : Nat := %d\n\n", multiCalls)
 	fmt.Fprintf(&sb, "/-- `if len(entities) != len(reps) { … return … }` statements in resolveManyEntities -/\ndef lengthChecks : Nat := %d\n\n", lengthChecks)
 	sb.WriteString("end GqlgenVerif.Gen.FedFacts\n")
